@@ -68,9 +68,12 @@ type Stats struct {
 	BoundDone    int              `json:"bound_done"` // largest bound completed for every scenario explored
 	Races        map[string]int64 `json:"races"`      // unordered conflicting plain accesses -> executions showing them
 	Accesses     int64            `json:"accesses"`   // instrumented plain accesses checked against the clocks
+	DoneAt       map[string]int64 `json:"done_at"`    // "bound=k" / "all interleavings" -> scenarios explored exactly that far
+	Focused      int64            `json:"focused"`    // executions of the race-directed phase
+	FocusedScen  int64            `json:"focused_scenarios"`
 }
 
-func NewStats() *Stats { return &Stats{Outcomes: map[string]int64{}, Races: map[string]int64{}, BoundDone: -1} }
+func NewStats() *Stats { return &Stats{Outcomes: map[string]int64{}, Races: map[string]int64{}, DoneAt: map[string]int64{}, BoundDone: -1} }
 
 func (a *Stats) Merge(b *Stats) {
 	a.Executions += b.Executions
@@ -88,8 +91,13 @@ func (a *Stats) Merge(b *Stats) {
 	}
 	a.Found = append(a.Found, b.Found...)
 	a.Accesses += b.Accesses
+	a.Focused += b.Focused
+	a.FocusedScen += b.FocusedScen
 	for k, v := range b.Races {
 		a.Races[k] += v
+	}
+	for k, v := range b.DoneAt {
+		a.DoneAt[k] += v
 	}
 }
 
@@ -114,6 +122,11 @@ func SetPromoted(sites []string) {
 }
 
 type Explorer struct {
+	// Focus: race-directed exploration. Deviations are only taken where they can matter to a known
+	// data race - at a point where some thread is at, or the running thread has just made, a plain
+	// access at a racing site - or to run a lazy thread (an event that may come at any instant).
+	// Within that restriction the enumeration is complete up to Bound.
+	Focus    bool
 	Bound    int
 	Deadline time.Time
 	Stats    *Stats
@@ -186,6 +199,10 @@ func (e *Explorer) explore(sc Scenario, prefix []int, used int) {
 			continue
 		}
 		for alt := 1; alt < trace[i].N; alt++ {
+			if e.Focus && trace[i].Kind == 't' && !trace[i].Hot && alt < trace[i].Lazy {
+				e.Stats.Pruned++
+				continue
+			}
 			np := make([]int, i+1)
 			for j := 0; j < i; j++ {
 				np[j] = trace[j].Choice
